@@ -6,6 +6,7 @@ import OxiaVerif.Model.SKV
 import OxiaVerif.Model.Wal
 import OxiaVerif.Model.Codec
 import OxiaVerif.Driver.DbProto
+import OxiaVerif.Model.Shard
 
 /-! Line-protocol dispatch: one operation line in, one output line out. -/
 namespace Oxia.Driver
@@ -18,6 +19,8 @@ structure State where
   wal : Wal.SW := Wal.SW.init
   db : Db.Db := Db.Db.empty
   dbDisk : Bool := false
+  cluster : Shard.ClusterStatus := { namespaces := [], gen := 0, serverIdx := 0 }
+  client : List Shard.Shard := []
 
 def State.init : State := {}
 
@@ -252,6 +255,11 @@ def stepDb (st : State) (toks : List String) : State × String :=
       let bs := Db.readNotifications st.db start
       (st, "n=" ++ toString bs.length ++ " " ++ String.intercalate " " (bs.map showBatch))
     | none => (st, "bad-op")
+  | ["db.trim", now, ret] =>
+    match now.toInt?, ret.toInt? with
+    | some now, some ret =>
+      ({ st with db := Db.trimNotifications Facts.notificationsTrimUpperBoundIsTrimOffsetPlusOne st.db now ret }, "ok")
+    | _, _ => (st, "bad-op")
   | ["idx.list", name, lo, hi] =>
     match Hex.decode name, Hex.decode lo, Hex.decode hi with
     | some name, some lo, some hi =>
@@ -270,6 +278,91 @@ def stepDb (st : State) (toks : List String) : State × String :=
     | _, _, _ => (st, "bad-op")
   | _ => (st, "bad-op")
 
+def showShard (s : Shard.Shard) : String := s!"{s.id}:{s.min}:{s.max}"
+
+def fnvStr (s : String) : Nat :=
+  s.toUTF8.data.toList.foldl (fun h b => ((h ^^^ b.toNat) * 16777619) % 4294967296) 2166136261
+
+def showShards (l : List Shard.Shard) : String :=
+  if l.length ≤ 16 then "n=" ++ toString l.length ++ " " ++ String.intercalate "," (l.map showShard)
+  else "n=" ++ toString l.length ++ " first=" ++ showShard (l.headD default) ++ " last=" ++ showShard (l.getLastD default) ++
+    " h=" ++ toString (fnvStr (String.intercalate "," (l.map showShard)))
+
+def parseShard (t : String) : Option Shard.Shard :=
+  match t.splitOn ":" with
+  | [i, a, b] => do
+    let i ← i.toInt?
+    let a ← a.toNat?
+    let b ← b.toNat?
+    pure { id := i, min := a, max := b }
+  | _ => none
+
+def showStatusKind : Shard.ShardStatus → String
+  | .unknown => "U" | .steadyState => "S" | .election => "E" | .deleting => "D"
+
+def insertSorted {α : Type} (le : α → α → Bool) (x : α) : List α → List α
+  | [] => [x]
+  | y :: ys => if le x y then x :: y :: ys else y :: insertSorted le x ys
+
+def sortBy {α : Type} (le : α → α → Bool) (l : List α) : List α := l.foldl (fun acc x => insertSorted le x acc) []
+
+def showCluster (c : Shard.ClusterStatus) : String :=
+  let nss := sortBy (fun (a b : Shard.NsStatus) => a.name ≤ b.name) c.namespaces
+  "gen=" ++ toString c.gen ++ " idx=" ++ toString c.serverIdx ++ " " ++ String.intercalate " " (nss.map fun ns =>
+    "ns" ++ toString ns.name ++ "[" ++ String.intercalate "," ((sortBy (fun (a b : Shard.ShardMeta) => a.id ≤ b.id) ns.shards).map fun s =>
+      s!"{s.id}:{s.min}:{s.max}:{showStatusKind s.status}:{s.ensemble.length}") ++ "]")
+
+def stepShard (st : State) (toks : List String) : State × String :=
+  match toks with
+  | ["sh.gen", base, n] =>
+    match base.toInt?, n.toNat? with
+    | some base, some n =>
+      (st, match Shard.generateShards base n with
+        | some l => showShards l
+        | none => "panic")
+    | _, _ => (st, "bad-op")
+  | ["cs.reset"] => ({ st with cluster := { namespaces := [], gen := 0, serverIdx := 0 } }, "ok")
+  | "cs.apply" :: rest =>
+    -- cs.apply servers=<k> fail=<mod>:<rem> ns=<name>:<count>:<rf> ...
+    let servers := ((DbProto.kvOf rest "servers").bind (·.toNat?)).getD 3
+    let fail := match ((DbProto.kvOf rest "fail").getD "0:0").splitOn ":" with
+      | [m, r] => (m.toNat?.getD 0, r.toNat?.getD 0)
+      | _ => (0, 0)
+    let nss : List Shard.NsConfig := (rest.filter (·.startsWith "ns=")).filterMap fun t =>
+      match (t.drop 3).toString.splitOn ":" with
+      | [nm, c, rf] => match nm.toNat?, c.toNat?, rf.toNat? with
+        | some nm, some c, some rf => some { name := nm, initialShardCount := c, rf := rf }
+        | _, _, _ => none
+      | _ => none
+    let sup : Shard.Supplier := fun nc s =>
+      if fail.1 ≠ 0 ∧ s.serverIdx % fail.1 = fail.2 then none
+      else if nc.rf > servers then none
+      else some (List.range nc.rf)
+    let c' := Shard.applyClusterChanges sup { namespaces := nss, servers := servers } st.cluster
+    ({ st with cluster := c' }, showCluster c')
+  | ["cs.published", nm] =>
+    match nm.toNat? with
+    | some nm =>
+      (st, match st.cluster.namespaces.find? (·.name = nm) with
+        | some ns => showShards (sortBy (fun (a b : Shard.Shard) => a.id ≤ b.id) (Shard.published ns))
+        | none => "none")
+    | none => (st, "bad-op")
+  | ["cl.reset"] => ({ st with client := [] }, "ok")
+  | "cl.update" :: ts =>
+    match ts.mapM parseShard with
+    | some ups =>
+      let c := Shard.update st.client ups
+      ({ st with client := c }, showShards (sortBy (fun (a b : Shard.Shard) => a.id ≤ b.id) c))
+    | none => (st, "bad-op")
+  | ["cl.get", h] =>
+    match h.toNat? with
+    | some h =>
+      -- all shards containing the hash code (the Go map iteration order decides which one `Get` returns)
+      let hits := sortBy (fun (a b : Int) => a ≤ b) ((st.client.filter (Shard.contains · h)).map (·.id))
+      (st, if hits.isEmpty then "panic" else String.intercalate "|" (hits.map toString))
+    | none => (st, "bad-op")
+  | _ => (st, "bad-op")
+
 def step (st : State) (line : String) : State × String :=
   let toks := (line.splitOn " ").filter (· ≠ "")
   match toks with
@@ -281,6 +374,7 @@ def step (st : State) (line : String) : State × String :=
     else if t.startsWith "wal." then stepWal st toks
     else if t.startsWith "cx." || t.startsWith "cw." then stepCodec st toks
     else if t.startsWith "db." || t.startsWith "idx." then stepDb st toks
+    else if t.startsWith "sh." || t.startsWith "cs." || t.startsWith "cl." then stepShard st toks
     else (st, "bad-op")
 
 end Oxia.Driver
